@@ -98,6 +98,16 @@ Theorem C06_resume_refuted_drawer_time : exists k : nat,
   let s1 := run_crash current cD 0 [] k VEmpty empty_fs in plan_out current cD 1 [] s1 = inl ValueErr.
 Proof. exact resume_refuted_drawer_time. Qed.
 
+Theorem C06_resume_refuted_summary : exists k : nat,
+  let s1 := run_crash current cDk 0 [] k VHalf empty_fs in
+  plan_out current cDk 1 [] s1 = inl JSONDecode /\ plan_out current cDk 2 [] (run_full current cDk 1 [] s1) = inl JSONDecode.
+Proof. exact resume_refuted_summary. Qed.
+
+Theorem C06_resume_refuted_lbfgs_check : exists k : nat,
+  let s1 := run_crash current cLk 0 [] k VBefore empty_fs in
+  plan_out current cLk 1 [] s1 = inl SearchExc /\ plan_out current cLk 2 [] (run_full current cLk 1 [] s1) = inl SearchExc.
+Proof. exact resume_refuted_lbfgs_check. Qed.
+
 (* full statement for the repaired code: after ANY history the next uninterrupted run succeeds *)
 Theorem C06_resume_repaired : forall c runs tag h,
   let s := history repaired c 0 runs empty_fs in
